@@ -4,7 +4,7 @@ CONSTANTS Widths = {} MaxH = 1 MaxOwn = 1 LimbDom = {0} IdWidths = {} StreamWidt
   Transports = {"stream", "dgram"} ConnWidths = {1} IdCand = {1, 2} IdLimit = 2
   MaxReq = 2 MaxPlain = 1 MaxStray = 1
   BActs = {"none", "reply", "reply2"} BHrets <- CHretsFail SyncMax = 2
-  MaxBReq = 1 MaxBPlain = 1 CRets <- CRetsBoth MaxChain = 1
+  MaxBReq = 0 MaxBPlain = 0 CRets <- CRetsBoth MaxChain = 0
 VIEW XView
 INVARIANTS XTypeOK Distinct XRefines AtMostOnce IdsFit HeaderOK TypeOK
 PROPERTIES RightWaiter EndToEnd ReserveTiers Recycle NothingLost StreamOnce Final
